@@ -1,9 +1,10 @@
 """C19 - bit-level primitives agree with two's complement and IEEE-754 (DESIGN 4/C19)."""
+import os
 from vklib import Builder
 
 QUICK_EXP = [-3, -1, 0, 1, 5, 52, 53, 62]
 FRAC_QUICK = [52, 50, 48]        # 0, 2, 4 fractional mantissa bits: CBMC time grows ~2.3x per 4 fractional bits (e=40: 207 s, e=32: 908 s)
-FRAC_THOROUGH = [46, 44, 40]
+FRAC_THOROUGH = [46, 44, 40] + ([int(x) for x in os.environ["VK_FRAC"].split(",")] if os.environ.get("VK_FRAC") else [])
 KNOWN_BAD_EXP = [63, 64]          # finding C19-F1: f64_int_bits for x >= 2^63
 
 
@@ -141,6 +142,7 @@ def spec(tier, seed):
         }
         std::mem::forget(got);
         """ % shift, unwind=56, tier="quick" if e in FRAC_QUICK else "thorough", core=e in FRAC_QUICK, cost=20 + (52 - e) * 20,
+                      solver=os.environ.get("VK_SOLVER"),
                       bounds="x = 1.m * 2^%d, all 2^52 mantissas; unwind 56 (checked)" % e,
                       functions=["rusty_variant::bits::f64_fractional_bits"])
             elif e < 0:
